@@ -19,7 +19,7 @@ Backward ("requirements") formulation, greatest-precision version of DESIGN.md s
 """
 from collections import defaultdict
 
-from .core import Result
+from .core import Result, is_panic_callee
 
 DETECT = "__is_feature_detected::"
 TRANSMUTES = ("rustfft::array_utils::workaround_transmute", "rustfft::array_utils::workaround_transmute_mut")
@@ -622,7 +622,7 @@ class Gates:
                                 for a in eg:
                                     out.append((self.subst_atom(a, m), "unwrap() of %s, which returns Err unless this holds" % g.name))
             # type-gated panic arm
-            if node.get("t") is None and "panicking" in p and st.excl:
+            if node.get("t") is None and is_panic_callee(c) and st.excl:
                 for x, ex in st.excl.items():
                     if x in st.allowed:
                         continue  # positively identified on this path: the panic is not about the type
@@ -936,7 +936,7 @@ def _panic_sites(F, b, states):
         t = b.blocks[bi]["t"]
         if t["k"] == "call" and t.get("t") is None:
             c = F.callee_of(t)
-            if c and "panicking" in c["p"]:
+            if is_panic_callee(c):
                 out.append((bi, t))
     return out
 
